@@ -138,7 +138,7 @@ pub fn scenario(name: &str, params: &Value) -> Scenario {
 pub fn bulk(prop: &'static str, name: String, params: Value) -> Scenario {
     Box::new(move |chz, ex| {
         let n = [17usize, 33, 64, 300][chz.choose(4)];
-        let wmode = chz.choose(3);
+        let wmode = chz.choose(4);
         let mut sys = Sys::new(prop, &name, chz);
         sys.params = params.clone();
         sys.auto_exit = false;
@@ -179,8 +179,30 @@ pub fn bulk(prop: &'static str, name: String, params: Value) -> Scenario {
                 2 => sys.set_write_mode(crate::wire::WriteMode::HalfThenPending),
                 _ => {}
             }
-            sys.w.cmd(CtxCmd::Run);
-            sys.sync();
+            if wmode == 3 {
+                // The transport takes exactly the first re-sent packet and then stalls; the broker
+                // acknowledges that packet while the rest of the backlog is held up; then the transport
+                // carries on. Every unfinished handshake is still re-sent, in order.
+                let pid0 = sys.m.ops[0].pid.unwrap_or(1);
+                let len1 = match &sys.m.ops[0].spec {
+                    OpSpec::Publish(p) => encode_client(&p.expected(pid0).expect("harness: publish")).len(),
+                    _ => unreachable!(),
+                };
+                sys.w.arm_write_block(len1);
+                sys.w.cmd(CtxCmd::Run);
+                sys.w.settle();
+                if let Some(a) = sys.ack_for(0, 0, "") {
+                    sys.events.push(format!("(first re-sent packet out, transport stalled) Deliver({})", a.brief()));
+                    sys.m.deliver(a.clone());
+                    sys.w.deliver(a.encode());
+                    sys.w.settle();
+                }
+                sys.w.lift_write_block();
+                sys.sync();
+            } else {
+                sys.w.cmd(CtxCmd::Run);
+                sys.sync();
+            }
             sys.set_write_mode(crate::wire::WriteMode::All);
         }
         for i in 0..n {
